@@ -63,6 +63,9 @@ where
             return vec![]; // We need at least two items that share the same prefix!
         }
 
+        // Groups are kept in order of first occurrence to make the result independent of the
+        // iteration order of a hash map.
+        let mut order: Vec<&[T]> = Vec::new();
         let groups: HashMap<&[T], i32> =
             candidates_with_len_n
                 .iter()
@@ -71,12 +74,20 @@ where
                         *v += 1; // Increment member count per group
                     } else {
                         acc.insert(c, 1); // Insert new group with one member
+                        order.push(c);
                     };
                     acc
                 });
-        // Choose the group with the most members
-        if let Some((k, v)) = groups.iter().max_by_key(|c| c.1) {
-            if v > &1 {
+        // Choose the group with the most members, on a tie the one that occurred first
+        let mut best: Option<(&[T], i32)> = None;
+        for k in order {
+            let v = groups[k];
+            if best.is_none_or(|(_, m)| v > m) {
+                best = Some((k, v));
+            }
+        }
+        if let Some((k, v)) = best {
+            if v > 1 {
                 // Found prefix is only useful if the group contains more than one member
                 k.to_vec()
             } else {
